@@ -18,9 +18,9 @@ theorem openObj_nodes (s : State) (o : Obj) (fl : Nat) (h : has fl O_TRUNC = fal
   unfold openObj
   split
   · rfl
-  · simp only [h, Bool.false_and, Bool.false_eq_true, if_false]
-    repeat' split
-    all_goals first | rfl | exact newFd_nodes _ _ _
+  · split
+    · rfl
+    · simp only [h, Bool.false_and, Bool.false_eq_true, if_false]; rfl
 
 macro "ro_nodes" : tactic => `(tactic| (repeat' split) <;> (first | rfl | exact newFd_nodes _ _ _ | (apply openObj_nodes; assumption)))
 
